@@ -171,7 +171,7 @@ for mode in MODES:
     for d, _, files in sorted(os.walk(root)):
         for f in sorted(files):
             p = os.path.join(d, f)
-            if not f.endswith(".rs") or f == "verif.rs":
+            if not f.endswith(".rs") or f.startswith("verif"):
                 continue
             if d == root and f in ("mod.rs", "gradual.rs"):
                 continue
